@@ -8,10 +8,12 @@ rationals).  Spec: `Spec/Number.lean` (how MCNP reads a number, the tolerance). 
 `Lemmas/Dec.lean`, `Lemmas/Pick.lean`.
 
 A formatted number is a `Dec` (sign, digits, digits after the point, exponent) that is then laid out as text.
-The theorems below are about **all** nodes, paddings and values; the arithmetic ones are proved on the `Dec`
-level.  That the layout of a `Dec` is read back (by `Spec.parseChars` and by the model's `fortranFloat`) as
-`Dec.value` is *not* proved here for floats (it is for integers: `C05_int`); it is validated on every run by the
-correspondence (`render_ok` of the driver) — see design_notes/C05.md.
+The theorems below are about **all** nodes, paddings and values.  The arithmetic ones are proved on the `Dec` level;
+`Lemmas/Text.lean` proves that the Spec reads the first word of *every* layout (`renderPy`, `renderSci`: sign style, zero
+fill, point, divider or none, exponent padding) as exactly `Dec.value`.  The one step that is **not** proved is that the
+*model's* `fortranFloat` (the read-back check inside `_format_float`) reads a candidate's text as `Dec.value` too; it only
+matters when a candidate before the 17-digit fallback is accepted, and it is validated on every run (`render_ok` of
+the driver, unit U-read) — see design_notes/C05.md.
 -/
 namespace MontePyVerif.C05
 open MontePyVerif.ValueFormat
@@ -146,10 +148,6 @@ inductive PadOK : List PadItem → Prop
   | newline (rest : List PadItem) : PadOK (.newline :: rest)
   | comment (c : Text) (rest : List PadItem) : PadOK (.comment ('$' :: c) :: rest)
 
-theorem replicate_startsSep (k : Nat) (hk : 1 ≤ k) (t : Text) : StartsSep (List.replicate k ' ' ++ t) := by
-  obtain ⟨j, rfl⟩ : ∃ j, k = j + 1 := ⟨k - 1, by omega⟩
-  exact ⟨' ', List.replicate j ' ' ++ t, by simp [List.replicate_succ], Or.inl rfl⟩
-
 /-- **C05_separated**: whenever the node's padding separates words, what `format` writes after the number
     (however long the new number is) starts with a blank, a line break or a `$`: the number cannot fuse with
     the next word -/
@@ -197,9 +195,49 @@ theorem C05_separated (n : Node) (temp : Text) (items : List PadItem) (hp : n.pa
 example : PadOK [.spaces 1, .comment "$ hi".toList, .newline] :=
   PadOK.spaces 1 _ (by decide) (by intro j r h; cases h)
 
-/-! ## integers, text level -/
+/-! ## floats, text level -/
 
 open MontePyVerif.Spec
+
+/-- **C05_candidate_text**: for every formatter (sign style, zero padding, divider, exponent padding), value, style and
+    precision, and whatever follows (nothing, or something starting with a blank, a line break or `$`): the Spec reads
+    the first word of the candidate's text as exactly the value of the candidate's `Dec` -/
+theorem C05_candidate_text (f : Formatter) (x : Num) (sp : FStyle × Nat) (tail : Text) (ht : tail = [] ∨ StartsSep tail) :
+    parseChars (firstWord (formatFloatAs f x sp ++ tail)) = some (decOf x sp).value := by
+  obtain ⟨st, q⟩ := sp
+  cases st
+  · show parseChars (firstWord (renderPy f.sign f.zeroPadding (decG x q) ++ tail)) = some (decG x q).value
+    exact spec_reads_renderPy f.sign f.zeroPadding (decG x q) tail ht
+  · show parseChars (firstWord (renderSci f (decE x q) ++ tail)) = some (decE x q).value
+    exact spec_reads_renderSci f (decE x q) tail ht
+  · show parseChars (firstWord (renderPy f.sign f.zeroPadding (decF x q) ++ tail)) = some (decF x q).value
+    exact spec_reads_renderPy f.sign f.zeroPadding (decF x q) tail ht
+
+/-- **C05_float_text**: for every node and value, MCNP (the Spec) reads the first word of what `_format_float` returns
+    as the value `v` of the chosen candidate's `Dec`; and `v` is within the tolerance of the value set (17-digit
+    fallback), or the text passed the model's own read-back check (`fortran_float(text)` within the tolerance).
+    The only step not proved is `fortran_float(text) = v` in the second case (validated on every run, `render_ok`). -/
+theorem C05_float_text (n : Node) (x : Num) (hx : 0 ≤ x.mag) (tail : Text) (ht : tail = [] ∨ StartsSep tail) :
+    ∃ sp ∈ floatStyles n, ∃ v, parseChars (firstWord (formatFloat n x ++ tail)) = some v ∧ v = (decOf x sp).value ∧
+      (Spec.isClose v x.toRat ∨ ∃ y, fortranFloat (formatFloat n x) = some y ∧ Spec.isClose y x.toRat) := by
+  obtain ⟨sp, hsp, heq, hor⟩ := C05_float n x hx
+  refine ⟨sp, hsp, (decOf x sp).value, ?_, rfl, ?_⟩
+  · rw [heq]; exact C05_candidate_text n.fmt x sp tail ht
+  · rcases hor with h | h
+    · exact Or.inr h
+    · exact Or.inl h
+
+/-- a float written as an integer (`_can_float_to_int_happen`) is within the tolerance of its nearest integer, which
+    `C05_int` shows is what MCNP reads -/
+theorem C05_float_as_int (n : Node) (v : Num) (hv : n.value = some v) (h : canFloatToIntHappen n = true) :
+    Spec.isClose (v.round : ℚ) v.toRat := by
+  unfold canFloatToIntHappen at h
+  split at h
+  · exact absurd h (by simp)
+  · rw [hv] at h
+    exact spec_of_model_isClose _ _ h
+
+/-! ## integers, text level -/
 
 theorem fmtD_eq (sign : Char) (width : Nat) (k : Int) : ∃ z,
     fmtD sign width k = signText sign (decide (k < 0)) ++ (List.replicate z '0' ++ Nat.toDigits 10 k.natAbs) := by
